@@ -90,7 +90,8 @@ func (*connectHandler) SetTimeout(request *http.Request) (context.Context, conte
 	if len(timeout) > 10 {
 		return nil, nil, errorf(CodeInvalidArgument, "parse timeout: %q has >10 digits", timeout)
 	}
-	millis, err := strconv.ParseInt(timeout, 10 /* base */, 64 /* bitsize */)
+	// The value is a string of digits: unlike ParseInt, ParseUint accepts no sign.
+	millis, err := strconv.ParseUint(timeout, 10 /* base */, 64 /* bitsize */)
 	if err != nil {
 		return nil, nil, errorf(CodeInvalidArgument, "parse timeout: %w", err)
 	}
